@@ -13,15 +13,15 @@
     eigen-decomposition, with a unique bearing unless the eigenvalues coincide.
 
   Both property files speak about the SAME `Gen/StatsGen.lean` definition over the same `Scalar ℝ`;
-  their `Trig ℝ` instances (`Gama.instTrigRealC07`, `Gama.instTrigReal`) are equal by `rfl`.
+  their `StatsTrig ℝ` instances (`Gama.instTrigRealC07`, `Gama.instStatsTrigReal`) are equal by `rfl`.
 -/
 import Gama.Props.C07
 import Gama.Props.C09
 namespace Gama.Props.C07
 open Gama Gama.Lin Real Matrix
 
-/-- C07's and C09's `Trig ℝ` (`atan2 y x = arg (x + y i)`, `pi = π`) are the same instance -/
-theorem trigReal_C07_eq_C09 : (Gama.instTrigRealC07 : Trig ℝ) = Gama.instTrigReal := rfl
+/-- C07's and C09's `StatsTrig ℝ` (`atan2 y x = arg (x + y i)`, `pi = π`) are the same instance -/
+theorem trigReal_C07_eq_C09 : (Gama.instTrigRealC07 : StatsTrig ℝ) = Gama.instStatsTrigReal := rfl
 
 /-- **the ellipse of the mirrored adjustment.**  `Q` the cofactor matrix of an adjustment (`A`, `P`,
     regularisation subset `S`), `ix`, `iy` the unknowns of one point, whose block is positive
